@@ -360,6 +360,24 @@ func (p *Proxy) WaitFor(pred func(fwd []Msg) bool, timeout time.Duration) bool {
 	return true
 }
 
+// Quiesce waits until the proxy has seen no new message for the given window (at most max): whatever a peer wrote before
+// the call has then, in all likelihood, been handled. Only used to order harness steps, never as an oracle.
+func (p *Proxy) Quiesce(window, max time.Duration) {
+	deadline := time.Now().Add(max)
+	last, since := -1, time.Now()
+	for time.Now().Before(deadline) {
+		p.mu.Lock()
+		n := len(p.Log)
+		p.mu.Unlock()
+		if n != last {
+			last, since = n, time.Now()
+		} else if time.Since(since) >= window {
+			return
+		}
+		time.Sleep(window / 8)
+	}
+}
+
 // SetAccept makes the proxy accept (or refuse) new connections.
 func (p *Proxy) SetAccept(ok bool) { p.mu.Lock(); p.accept = ok; p.mu.Unlock() }
 
